@@ -56,7 +56,7 @@ def check_pnorm(project: Project, rep):
     I = Interp(project, Config(nonempty={("rows", "D"), ("rows", "K")}, finite_inputs={"cp"}))
     r = I.run(PN, {"p": Sc(sym.Sym("p")), "critical_pairs": _cp_input()})
     # ---- NM-SIGN
-    pows = [ev for ev in I.log if ev["kind"] == "pow" and ev["fi"] is fi]
+    pows = [ev for ev in I.log if ev["kind"] == "pow"]
     n_sites = 0
     for ev in pows:
         ex, base = ev["exponent"], ev["base"]
@@ -81,7 +81,7 @@ def check_pnorm(project: Project, rep):
                         failing_input="critical pairs [[0,-1],[2,1]], p=2: 0 instead of sqrt(2/3)")
     rep.floor("NM-SIGN", 3)
     # ---- NM-FORM: the folded summand against the true segment integral
-    loops = [ev for ev in I.log if ev["kind"] == "loop" and ev["fi"] is fi and ev["ivar"]]
+    loops = [ev for ev in I.log if ev["kind"] == "loop" and ev["ivar"]]
     inner = [l for l in loops if any(c.get("kind") == "fold" for c in l["carried"].values())]
     done = False
     for lp in reversed(inner):
@@ -139,7 +139,7 @@ def check_pnorm(project: Project, rep):
     else:
         rep.unmodelled("NM-HOM", fi, fi.node, "norm value not modelled")
     # ---- NM-ARMS
-    divs = [ev for ev in I.log if ev["kind"] == "div" and ev["fi"] is fi]
+    divs = [ev for ev in I.log if ev["kind"] == "div"]
     slope_divs = [ev for ev in divs if isinstance(ev["den"], Sc) and any(x[0] == "in" and x[2][2] == 0 for x in sym.walk(ev["den"].e))
                   and isinstance(ev["num"], Sc) and any(x[0] == "in" and x[2][2] == 1 for x in sym.walk(ev["num"].e))]
     if slope_divs:
@@ -168,7 +168,8 @@ def check_sup_and_wiring(project: Project, rep):
             raise AnalysisError(f"NM-SUP: {cq} lacks sup_norm/p_norm")
         rep.analysed(sup)
         rep.analysed(pn)
-        f = sup.node
+        from .common import expand_locals, fn_view
+        f = fn_view(project, sup)
         locs = local_names(f)
         maxes = [n for n in ast.walk(f) if isinstance(n, ast.Call) and
                  (project.resolve(sup.module, n.func, locs) in ("numpy.max", "builtins.max", "numpy.amax")
@@ -177,7 +178,7 @@ def check_sup_and_wiring(project: Project, rep):
             rep.unmodelled("NM-SUP", sup, f, "no max over the values found")
         for m in maxes[:1]:
             has_abs = any(isinstance(x, ast.Call) and project.resolve(sup.module, x.func, locs) in
-                          ("numpy.abs", "builtins.abs", "numpy.absolute", "numpy.fabs") for x in ast.walk(m))
+                          ("numpy.abs", "builtins.abs", "numpy.absolute", "numpy.fabs") for x in ast.walk(expand_locals(f, m)))
             mins = any(isinstance(x, ast.Call) and project.resolve(sup.module, x.func, locs) in ("numpy.min", "builtins.min")
                        for x in ast.walk(f))
             partial = [x for x in ast.walk(f) if isinstance(x, ast.Subscript) and isinstance(x.value, ast.Attribute)
